@@ -583,7 +583,7 @@ func (x *Exec) applyContract(fr *Frame, st *State, ctr *Contract, sig *types.Sig
 		}
 	}
 	for _, c := range ctr.Clauses {
-		if c.Kind != "ensures" || c.Spawn != isGo {
+		if c.Kind != "ensures" || c.Spawn != isGo || c.Local {
 			continue
 		}
 		g := ev(c.Expr, st, old)
